@@ -12,6 +12,7 @@ import logging
 import os
 import gffutils
 import argparse
+import tempfile
 from traceback import print_exc
 import gzip
 
@@ -338,11 +339,36 @@ def compare_stored_gtf(converted_gtfs, gtf_filename, genedb_filename):
             os.path.exists(genedb_filename) and os.path.getmtime(genedb_filename) == db_mtime)
 
 
+def load_config(config_path):
+    # The per-user config files are shared by all IsoQuant runs of this user, possibly running at the same time:
+    # a missing, empty or unparsable file is treated as an empty cache instead of failing the run.
+    try:
+        with open(config_path, 'r') as f_in:
+            config = json.load(f_in)
+    except (OSError, ValueError):
+        return {}
+    return config if isinstance(config, dict) else {}
+
+
+def store_config(config_path, config):
+    # Write to a temporary file in the same folder and rename it atomically,
+    # so that concurrent runs never observe (or leave behind) a partially written config file.
+    fd, tmp_path = tempfile.mkstemp(dir=os.path.dirname(config_path),
+                                    prefix=os.path.basename(config_path) + ".", suffix=".tmp")
+    try:
+        with os.fdopen(fd, 'w') as f_out:
+            json.dump(config, f_out)
+        os.replace(tmp_path, config_path)
+    except BaseException:
+        if os.path.exists(tmp_path):
+            os.remove(tmp_path)
+        raise
+
+
 def convert_db(gtf_filename, genedb_filename, convert_fn, args):
     genedb_filename = os.path.abspath(genedb_filename)
 
-    with open(args.db_config_path, 'r') as f_in:
-        converted_gtfs = json.load(f_in)
+    converted_gtfs = load_config(args.db_config_path)
 
     if not args.clean_start:
         if convert_fn == gtf2db:
@@ -366,8 +392,7 @@ def convert_db(gtf_filename, genedb_filename, convert_fn, args):
         'db_mtime': os.path.getmtime(genedb_filename),
         'complete_db': args.complete_genedb
     }
-    with open(args.db_config_path, 'w') as f_out:
-        json.dump(converted_gtfs, f_out)
+    store_config(args.db_config_path, converted_gtfs)
     return gtf_filename, genedb_filename
 
 
